@@ -240,12 +240,12 @@ example : ∃ r, readPoints (numOf Gama.Export.decCodec) 0 (sectionStart 0 true)
   obtain ⟨r, h1, h2, h3, _⟩ := C12_section_roundtrip Gama.Export.decCodec Gama.Export.decQ Gama.Export.decCodec_printer
     0 .adjusted exFrame exPoints exPoints_trimmed (sectionStart 0 true) rfl
   exact ⟨r, h1, by simpa [sectionStart] using h2, by rw [h3]; decide⟩
--- the numbers are rounded by the printer (1001+1000 ↦ 2010), the plane point has no height and no height index
+-- the numbers are rounded by the printer (1001+1 ↦ 1010), the plane point has no height and no height index
 example : (expectSection Gama.Export.decQ 0 .adjusted exFrame 0 exPoints).1.map
       (fun p => (p.id, [p.x, p.y, p.z], [p.hxy, p.hz, p.cxy, p.cz], [p.indx, p.indy, p.indz])) =
-    [("A", [2010, 4010, 6010], [true, true, false, false], [1, 2, 3]),
-     ("B x", [8010, 10010, 0], [true, false, true, false], [4, 5, 0]),
-     ("C", [0, 0, 12010], [false, true, false, false], [0, 0, 6])] := by decide
+    [("A", [1010, 2010, 3010], [true, true, false, false], [1, 2, 3]),
+     ("B x", [4010, 5010, 0], [true, false, true, false], [4, 5, 0]),
+     ("C", [0, 0, 6020], [false, true, false, false], [0, 0, 6])] := by decide
 example : (expectSection Gama.Export.decQ 0 .fixed exFrame 0 exPoints).1.map (fun p => (p.id, p.x, p.indx)) =
     [("F", 1010, 0)] := by decide
 example : (writeSection (numOf Gama.Export.decCodec) .approximate exFrame exPoints).map (fun ls => ls.map (·.tag)) =
@@ -262,11 +262,10 @@ example : (exObs.map (fun o => (writeObs (numOf Gama.Export.decCodec) exFrame o)
      ["from", "left", "right", "obs", "adj", "stdev", "qrr", "f"],
      ["id", "obs", "adj", "stdev", "qrr", "f"]] := by decide
 -- an element that stops after <qrr> is refused, as is <y> before <x>
-example : readObs (numOf Gama.Export.decCodec) 0 "distance"
+example : readObs (⟨fun _ => "", fun _ => some 1⟩ : Num Nat) 0 "distance"
     [⟨"from", "A"⟩, ⟨"to", "B"⟩, ⟨"obs", "1"⟩, ⟨"adj", "1"⟩, ⟨"stdev", "1"⟩, ⟨"qrr", "1"⟩] = .error .obsAttrMissing := by
-  simp [readObs, bleaves, bleaf, setNum, numOf, Gama.Export.decCodec, clearObs]; decide
-example : (match readPoint (numOf Gama.Export.decCodec) 0 (sectionStart 0 false) [⟨"id", "A"⟩, ⟨"y", "1"⟩] with
-    | .error .illegalContext => true | _ => false) = true := by
-  simp [readPoint, pleaves, pleaf, ptag, pnext]
+  decide
+example : (match readPoint (⟨fun _ => "", fun _ => some 1⟩ : Num Nat) 0 (sectionStart 0 false) [⟨"id", "A"⟩, ⟨"y", "1"⟩] with
+    | .error .illegalContext => true | _ => false) = true := by decide
 
 end Gama.Props.C12
